@@ -31,6 +31,12 @@
  * so a script containing them behaves as the script without them.  At every node the map is
  * finally cleared (callback audit, leak audit, reuse) and the state restored.
  *
+ * Why a tree and not a flat list of scripts: CBMC executes this concrete code at 5-10 thousand steps
+ * per second (one operation + full comparison is about 2000 steps), so the 50625 flat scripts of
+ * length 4 are out of reach, while the tree shares every prefix (259 states for <= 3 changes, 1555
+ * for <= 4).  Groups are further cut into slices (VF_FIRST_*, VF_SECOND_*, VF_ORDER_*, VF_FIRST)
+ * of 100-170 thousand steps because the vacuity run emits the whole execution as a JSON trace.
+ *
  * The container-of casts of bintree.c / rbtree.c are normalised in the scratch copy (vflib/prep.py).
  */
 #include "vf.h"
@@ -84,9 +90,9 @@ static int vf_mallocs, vf_frees, vf_failed;   /* calls so far in this script */
 static int vf_live_n;              /* blocks handed out and not yet freed */
 static int vf_last_blk = -1, vf_last_freed = -1;
 #ifdef VF_ARENA
-#define VF_NBLK 6
-static struct cstl_map_node vf_s0, vf_s1, vf_s2, vf_s3, vf_s4, vf_s5;
-static struct cstl_map_node * const vf_blk[VF_NBLK] = { &vf_s0, &vf_s1, &vf_s2, &vf_s3, &vf_s4, &vf_s5 };
+#define VF_NBLK (VF_NK + 1)        /* one more than can ever be live */
+static struct cstl_map_node vf_s0, vf_s1, vf_s2, vf_s3, vf_s4, vf_s5, vf_s6;
+static struct cstl_map_node * const vf_blk[VF_NKMAX + 1] = { &vf_s0, &vf_s1, &vf_s2, &vf_s3, &vf_s4, &vf_s5, &vf_s6 };
 static int vf_used[VF_NBLK];
 static struct cstl_bintree_node vf_poison;   /* sentinel: the links of a freed node point here */
 static void vf_poison_blk(int k)
@@ -101,7 +107,7 @@ static int vf_is_poison(int k)
            vf_poison.p == NULL && vf_poison.l == NULL && vf_poison.r == NULL;
 }
 #else
-#define VF_NBLK 12
+#define VF_NBLK 8                  /* allocations per scenario */
 static struct cstl_map_node * vf_blk[VF_NBLK];
 static int vf_nblk;
 #endif
@@ -169,7 +175,7 @@ static int vf_max_size;
 static void vf_reset(void)
 {
     int k;
-    for (k = 0; k < VF_NKMAX; k++) { vf_present[k] = 0; vf_skey[k] = NULL; vf_sval[k] = NULL; vf_nodeof[k] = -1; }
+    for (k = 0; k < VF_NK; k++) { vf_present[k] = 0; vf_skey[k] = NULL; vf_sval[k] = NULL; vf_nodeof[k] = -1; }
     MA(vf_live_n == 0, "harness: previous script left nothing allocated");
     vf_mallocs = vf_frees = vf_failed = 0;
     vf_last_blk = vf_last_freed = -1;
@@ -185,7 +191,7 @@ static void vf_reset(void)
 static int vf_key_index(const void * key)
 {
     int j;
-    for (j = 0; j < VF_NKMAX; j++) {
+    for (j = 0; j < VF_NK; j++) {
         if (key == (const void *)&K[j] || key == (const void *)&K2[j]) return j;
     }
     return -1;
@@ -319,7 +325,7 @@ static void vf_check_find(int i, const void * probe)
 static int vf_count(void)
 {
     int i, n = 0;
-    for (i = 0; i < VF_NKMAX; i++) n += vf_present[i];
+    for (i = 0; i < VF_NK; i++) n += vf_present[i];
     return n;
 }
 
@@ -481,15 +487,15 @@ static void vf_finish(int with_cb)
     int i;
     const int n = vf_count();
     const int f0 = vf_frees, m0 = vf_mallocs;
-    for (i = 0; i < VF_NKMAX; i++) vf_clr_seen[i] = 0;
+    for (i = 0; i < VF_NK; i++) vf_clr_seen[i] = 0;
     vf_clr_n = 0;
     cstl_map_clear(&vf_m, with_cb ? vf_clr : NULL, &vf_clr_cookie);
     if (with_cb) {
         MA(vf_clr_n == n, "clear: the callback runs exactly once per entry");
-        for (i = 0; i < VF_NKMAX; i++) MA(vf_clr_seen[i] == vf_present[i], "clear: every entry (and nothing else) was handed over");
+        for (i = 0; i < VF_NK; i++) MA(vf_clr_seen[i] == vf_present[i], "clear: every entry (and nothing else) was handed over");
     }
     MA(vf_frees == f0 + n && vf_mallocs == m0, "clear: releases exactly one node per entry, allocates nothing");
-    for (i = 0; i < VF_NKMAX; i++) { vf_present[i] = 0; vf_nodeof[i] = -1; }
+    for (i = 0; i < VF_NK; i++) { vf_present[i] = 0; vf_nodeof[i] = -1; }
     MA(cstl_map_size(&vf_m) == 0 && vf_m.t.t.root == NULL, "clear: the map is empty");
     vf_check();
     vf_audit();
@@ -519,7 +525,7 @@ static void vf_save(int d)
 {
     int k;
     for (k = 0; k < VF_NBLK; k++) { vf_sv_blk[d][k] = *vf_blk[k]; vf_sv_live[d][k] = vf_live[k]; vf_sv_used[d][k] = vf_used[k]; }
-    for (k = 0; k < VF_NKMAX; k++) { vf_sv_present[d][k] = vf_present[k]; vf_sv_nodeof[d][k] = vf_nodeof[k]; vf_sv_skey[d][k] = vf_skey[k]; vf_sv_sval[d][k] = vf_sval[k]; }
+    for (k = 0; k < VF_NK; k++) { vf_sv_present[d][k] = vf_present[k]; vf_sv_nodeof[d][k] = vf_nodeof[k]; vf_sv_skey[d][k] = vf_skey[k]; vf_sv_sval[d][k] = vf_sval[k]; }
     vf_sv_m[d] = vf_m;
     vf_sv_mallocs[d] = vf_mallocs; vf_sv_frees[d] = vf_frees; vf_sv_failed[d] = vf_failed; vf_sv_live_n[d] = vf_live_n;
     vf_sv_last_blk[d] = vf_last_blk; vf_sv_last_freed[d] = vf_last_freed;
@@ -528,7 +534,7 @@ static void vf_restore(int d)
 {
     int k;
     for (k = 0; k < VF_NBLK; k++) { *vf_blk[k] = vf_sv_blk[d][k]; vf_live[k] = vf_sv_live[d][k]; vf_used[k] = vf_sv_used[d][k]; }
-    for (k = 0; k < VF_NKMAX; k++) { vf_present[k] = vf_sv_present[d][k]; vf_nodeof[k] = vf_sv_nodeof[d][k]; vf_skey[k] = vf_sv_skey[d][k]; vf_sval[k] = vf_sv_sval[d][k]; }
+    for (k = 0; k < VF_NK; k++) { vf_present[k] = vf_sv_present[d][k]; vf_nodeof[k] = vf_sv_nodeof[d][k]; vf_skey[k] = vf_sv_skey[d][k]; vf_sval[k] = vf_sv_sval[d][k]; }
     vf_m = vf_sv_m[d];
     vf_mallocs = vf_sv_mallocs[d]; vf_frees = vf_sv_frees[d]; vf_failed = vf_sv_failed[d]; vf_live_n = vf_sv_live_n[d];
     vf_last_blk = vf_sv_last_blk[d]; vf_last_freed = vf_sv_last_freed[d];
@@ -545,7 +551,7 @@ static int vf_same_state(int d)
                    vf_sv_blk[d][k].n.n.p == vf_blk[k]->n.n.p && vf_sv_blk[d][k].n.n.l == vf_blk[k]->n.n.l && vf_sv_blk[d][k].n.n.r == vf_blk[k]->n.n.r;
         }
     }
-    for (k = 0; k < VF_NKMAX; k++) {
+    for (k = 0; k < VF_NK; k++) {
         same = same && vf_sv_present[d][k] == vf_present[k] && vf_sv_nodeof[d][k] == vf_nodeof[k] && vf_sv_skey[d][k] == vf_skey[k] && vf_sv_sval[d][k] == vf_sval[k];
     }
     same = same && vf_sv_m[d].t.t.root == vf_m.t.t.root && vf_sv_m[d].t.t.size == vf_m.t.t.size && vf_sv_m[d].t.t.off == vf_m.t.t.off &&
@@ -580,6 +586,9 @@ static void vf_dfs(int depth, int last_depth, int do_noops, int do_fail, int do_
     vf_boundary();
     VF_SCEN(depth > 0);
     if (depth > vf_deepest) vf_deepest = depth;
+    /* (reach goal inside the walk: its witness ends at the first deepest node, which keeps the canary trace short) */
+    VF_REACH(depth == last_depth && vf_max_size == (last_depth < VF_NK ? last_depth : VF_NK) && (vf_noops > 0 || vf_failures > 0),
+             "deepest state of the script tree reached, fullest map seen, non-changing operations / allocation failures exercised");
     vf_save(depth);
     if (do_finish) {
         vf_finish(1);
@@ -602,7 +611,9 @@ static void vf_dfs(int depth, int last_depth, int do_noops, int do_fail, int do_
             }
             continue;
         }
-        if (do_fail && (kind == OP_INS || kind == OP_INS2) && !(depth == 0 && (code < VF_FIRST_LO || code > VF_FIRST_HI))) {
+        if (do_fail && (kind == OP_INS || kind == OP_INS2) &&
+            !(depth == 0 && (code < VF_FIRST_LO || code > VF_FIRST_HI || VF_SECOND_LO != 0)) &&      /* (slices do not repeat */
+            !(depth == 1 && (code < VF_SECOND_LO || code > VF_SECOND_HI))) {                        /*  each other's tests) */
             /* C16: the allocation of this insert fails */
             vf_fail_at = vf_mallocs;
             vf_op(kind, i, depth, 1, 1);
@@ -637,7 +648,6 @@ void h_b_script(void)
     vf_reset();
     vf_check();
     vf_dfs(0, VF_LEN, 1, 0, 1);
-    VF_REACH(vf_deepest == VF_LEN && vf_max_size == (VF_LEN < VF_NK ? VF_LEN : VF_NK) && vf_noops > 0, "deepest scripts explored, fullest map reached");
     vf_restore(0);
     vf_finish(0);
     VF_END();
@@ -652,7 +662,6 @@ void h_b_fail(void)
     vf_reset();
     vf_check();
     vf_dfs(0, VF_LEN - 1, 0, 1, 0);
-    VF_REACH(vf_deepest == VF_LEN - 1 && vf_failures > 0, "deepest states explored, allocation failures injected");
     vf_restore(0);
     vf_finish(1);
     VF_END();
@@ -660,8 +669,14 @@ void h_b_fail(void)
 #endif
 
 #if defined(VF_B) && VF_B == 4
-/* insert VF_NK keys in every order whose first key is in [VF_FIRST_LO, VF_FIRST_HI], then erase them in every
- * order (by key and by iterator alternating): the map ends empty without clear, nothing may be left allocated */
+#ifndef VF_ORDER_LO
+#define VF_ORDER_LO 0
+#endif
+#ifndef VF_ORDER_HI
+#define VF_ORDER_HI 1000000
+#endif
+/* insert VF_NK keys in every order whose number (in the enumeration below) is in [VF_ORDER_LO, VF_ORDER_HI], then erase
+ * them in every order (by key and by iterator alternating): the map ends empty without clear, nothing may be left allocated */
 static int vf_drained;
 static void vf_drain(int depth)
 {
@@ -678,26 +693,28 @@ static void vf_drain(int depth)
     if (!any) {
         MA(cstl_map_size(&vf_m) == 0 && vf_m.t.t.root == NULL, "drain: the map is empty after erasing every key");
         vf_audit();
+        VF_REACH(vf_max_size == VF_NK, "a full map drained to empty");
         VF_SCEN(1);
         vf_drained++;
     }
 }
 void h_b_drain(void)
 {
-    int ins[VF_NKMAX], code, ncodes = 1, k, j;
+    int ins[VF_NKMAX], code, ncodes = 1, k, j, np = 0;
     for (k = 0; k < VF_NK; k++) ncodes *= VF_NK;
     for (code = 0; code < ncodes; code++) {
         int c = code, distinct = 1;
         for (k = 0; k < VF_NK; k++) { ins[k] = c % VF_NK; c /= VF_NK; }
         for (k = 0; k < VF_NK; k++) for (j = 0; j < k; j++) if (ins[j] == ins[k]) distinct = 0;
-        if (!distinct || ins[0] < VF_FIRST_LO || ins[0] > VF_FIRST_HI) continue;
+        if (!distinct) continue;
+        np++;
+        if (np - 1 < VF_ORDER_LO || np - 1 > VF_ORDER_HI) continue;
         vf_reset();
         for (k = 0; k < VF_NK; k++) vf_op((k & 1) ? OP_INS2 : OP_INS, ins[k], k, 1, 1);
         vf_drain(0);
         vf_finish(1);               /* the state is the full map again: clear it */
         vf_boundary();
     }
-    VF_REACH(vf_drained > 0 && vf_max_size == VF_NK, "full maps drained in every order");
     VF_END();
 }
 #endif
@@ -708,6 +725,9 @@ void h_b_drain(void)
 #ifndef VF_PASS
 #define VF_PASS 0
 #endif
+#ifndef VF_FIRST
+#define VF_FIRST (-1)              /* restrict to sequences starting with this key (the empty sequence goes with key 0) */
+#endif
 /* every sequence of 0..VF_NK distinct keys out of VF_NK, inserted in that order (every other insert without
  * iterator, key objects alternating); then clear with the recording callback (VF_PASS 0) or without callback
  * (VF_PASS 1), audit, reuse.  Runs linearly, so it also works on the real malloc/free. */
@@ -715,7 +735,7 @@ static int vf_orders;
 void h_b_clear(void)
 {
     int seq[VF_NKMAX], len;
-    for (len = 0; len <= VF_NK; len++) {
+    for (len = VF_NK; len >= 0; len--) {        /* longest first: the reach goal is met by the first scenario */
         int code, ncodes = 1, k, j;
         for (k = 0; k < len; k++) ncodes *= VF_NK;
         for (code = 0; code < ncodes; code++) {
@@ -723,6 +743,7 @@ void h_b_clear(void)
             for (k = 0; k < len; k++) { seq[k] = c % VF_NK; c /= VF_NK; }
             for (k = 0; k < len; k++) for (j = 0; j < k; j++) if (seq[j] == seq[k]) distinct = 0;
             if (!distinct) continue;
+            if (VF_FIRST >= 0 && (len > 0 ? seq[0] : 0) != VF_FIRST) continue;
             vf_reset();
             for (t = 0; t < len; t++) {
                 /* the full comparison follows the last insert: every proper prefix is a sequence of its own */
@@ -730,10 +751,10 @@ void h_b_clear(void)
             }
             vf_finish(VF_PASS == 0);
             vf_boundary();
+            VF_REACH(len == VF_NK && vf_max_size == VF_NK, "largest map cleared");
             VF_SCEN(len > 1);
             vf_orders++;
         }
-        VF_REACH(len == VF_NK && vf_max_size == VF_NK, "largest map cleared");
     }
     VF_END();
 }
